@@ -4,7 +4,7 @@
 // changes, a rewritten copy under -out plus one overlay.json for `go build -overlay`. Nothing is
 // written into the repository. Rules (see DESIGN.md §3.2): R1 go statements, R2 sync types, R3 channel
 // operations, R4 time.Sleep, R5 os file API, R6 map iteration order, R7 package-level objects owning
-// channels/timers, R8 network, R10 stubbed bodies, R11 GOMAXPROCS reads.
+// channels/timers, R8 network, R10 stubbed bodies, R11 GOMAXPROCS reads, R12 timer ties.
 // On any construct inside a rule's scope that it does not recognise it exits 2 (never a silent skip).
 package main
 
@@ -284,6 +284,40 @@ func (rw *fileRewriter) passExpr() {
 				rw.changed = true
 				counts["R10_stub"]++
 			}
+		}
+	}
+	// R12: two timer channels created by one function (two tickers read by one select) must never come due at
+	// the same instant: which case of a select runs when both are ready is the Go runtime's coin, not the
+	// simulator's. The second and later constructors of a function get a fixed sub-millisecond offset.
+	if !*noSched {
+		for _, d := range rw.file.Decls {
+			fd, ok := d.(*ast.FuncDecl)
+			if !ok || fd.Body == nil {
+				continue
+			}
+			k := 0
+			ast.Inspect(fd.Body, func(n ast.Node) bool {
+				ce, ok := n.(*ast.CallExpr)
+				if !ok || len(ce.Args) != 1 {
+					return true
+				}
+				sel, ok := ce.Fun.(*ast.SelectorExpr)
+				if !ok || rw.pkgOf(sel.X) != "time" {
+					return true
+				}
+				switch sel.Sel.Name {
+				case "NewTicker", "NewTimer", "After", "Tick":
+					if k > 0 {
+						ce.Args[0] = &ast.BinaryExpr{X: &ast.ParenExpr{X: ce.Args[0]}, Op: token.ADD,
+							Y: &ast.CallExpr{Fun: &ast.SelectorExpr{X: sel.X, Sel: ast.NewIdent("Duration")},
+								Args: []ast.Expr{&ast.BasicLit{Kind: token.INT, Value: fmt.Sprint(k * 104729)}}}}
+						rw.changed = true
+						counts["R12_timer_skew"]++
+					}
+					k++
+				}
+				return true
+			})
 		}
 	}
 	astutil.Apply(rw.file, func(c *astutil.Cursor) bool {
